@@ -42,4 +42,6 @@ for m in gen/sjmodel*.ml; do
     (cd "gen/build$suffix" && ocamlfind ocamlopt -O2 -w -a -I . "$base.mli" "$base.ml" "$drv" -o "../../$exe.tmp" 2>&1 | tail -5) && mv "$exe.tmp" "$exe"
   fi
 done
+# the preserve_order personality of the pointer driver (same binary, chosen by its name)
+if [ -x sjdriver_ptr ] && { [ ! -x sjdriver_ptr_po ] || [ sjdriver_ptr -nt sjdriver_ptr_po ]; }; then cp sjdriver_ptr sjdriver_ptr_po; fi
 echo MODEL-OK
